@@ -1,5 +1,5 @@
 (* Properties_C08.v — C08: what the encoders produce, the library's own receivers accept unchanged. *)
-From Via Require Import M_Char M_Encode M_Parse P_C08.
+From Via Require Import M_Char M_Encode M_Parse P_C08 P_C02 P_C08b P_C08c.
 Local Open Scope N_scope.
 
 (* every header name the library defines (all ids of header_field::id, regenerated from the source)
@@ -19,5 +19,38 @@ Theorem C08_header_line_roundtrip : forall L name value rest,
             /\ fl_name f = map tolower name /\ fl_value f = value.
 Proof. exact header_line_roundtrip. Qed.
 
+(* the request line written by tx_request is parsed back: same method, target and version, for every method of
+   upper-case letters and every target without blanks and line ends, within the limits; whatever follows is left *)
+Theorem C08_request_line_roundtrip : forall L m u ma mi hs rest,
+  forallb isupper m = true -> m <> [] -> nlen m <= max_method L ->
+  forallb uri_char u = true -> u <> [] -> nlen u <= max_uri L ->
+  isdigit ma = true -> isdigit mi = true ->
+  rl_parse L rl_init (request_line_string (mk_tx_request m u ma mi hs) ++ rest) =
+  (mk_rl m u ma mi R_VALID 1 true false, rest, Done).
+Proof. exact request_line_roundtrip. Qed.
+
+(* numbers: what to_dec_string / to_hex_string write, from_dec_string / the chunk size parser read *)
+Theorem C08_decimal_roundtrip : forall n, n <= LONG_MAX -> from_dec_string (to_dec_string n) = Some n.
+Proof. exact dec_roundtrip. Qed.
+Theorem C08_hexadecimal_roundtrip : forall n, n <= LONG_MAX -> size_of_hex (to_hex_string n) = n.
+Proof. exact hex_roundtrip. Qed.
+
+(* the Content-Length line the encoders add is read back as the same number *)
+Theorem C08_content_length_roundtrip : forall L n rest, n <= LONG_MAX -> 1 <= max_ws L ->
+  nlen (content_length_line n) <= max_line L -> next_is_blank rest = false -> rest <> [] ->
+  exists f, fl_parse L fl_init (content_length_line n ++ rest) = (f, rest, Done)
+            /\ fl_name f = hf_LC_CONTENT_LENGTH /\ from_dec_string (fl_value f) = Some n.
+Proof. exact content_length_roundtrip. Qed.
+
+Example C08_example_request_line :
+  rl_parse (mk_limits 8190 8 100 65534 1024 8 65534 65534 false) rl_init
+    (request_line_string (mk_tx_request [80;85;84] [47;97;63;98;61;49] 49 49 []) ++ [72]) =
+  (mk_rl [80;85;84] [47;97;63;98;61;49] 49 49 R_VALID 1 true false, [72], Done).
+Proof. vm_compute. reflexivity. Qed.
+
 Print Assumptions C08_all_header_ids_parse_back.
 Print Assumptions C08_header_line_roundtrip.
+Print Assumptions C08_request_line_roundtrip.
+Print Assumptions C08_decimal_roundtrip.
+Print Assumptions C08_hexadecimal_roundtrip.
+Print Assumptions C08_content_length_roundtrip.
